@@ -937,6 +937,15 @@ fn r_div_before_mul(t: &RTree) -> Vec<Verdict> {
                     }
                 }
             }
+            // `x *= R` with a division in R multiplies after dividing, but the statement names neither it nor its
+            // absence: gray
+            E::AssignMultiply(..) => {
+                if let Some(rc) = child_in_slot(t, i, "Binary.right") {
+                    if t.subtree(rc).any(|j| t.nodes[j].kind == "Divide") {
+                        out.push(v(t, i, false, "*= with a division on the right-hand side"));
+                    }
+                }
+            }
             _ => {}
         }
     }
